@@ -215,6 +215,9 @@ func runC17(c *Ctx) {
 			"every success path of insertDirEntry leaves a readDirMap key for the directory itself: a directory without children (the root of an empty bundle) lists as empty",
 			"insertDirEntry can succeed without giving the directory a readDirMap key: ReadDir of a directory without children (the root of an empty bundle) answers ENOENT instead of an empty listing")
 	}
+	// streamed reads: the cafs leaf fetch takes exactly io.EOF as "leaf complete" (shared with C01/C03); failed reads fail
+	checkEOFByIdentity(c, "plumbing.read.eof-by-identity")
+	checkReadErrorsFail(c, "plumbing.read.errors-fail")
 }
 
 // guardedUpdateFails: `if _, update := X.Insert(k, v); update { return <non-nil error> }`
